@@ -301,6 +301,9 @@ func checkSwitch(rc *RC, ts *TypedSwitch) {
 					break
 				}
 			}
+			if bad == "" {
+				bad = boxedValueMismatch(rc, ts, arm, label)
+			}
 			if bad != "" {
 				rc.S.Viol("K3", key, rc.P.Pos(arm.Clause.Pos()), bad)
 			} else {
@@ -385,4 +388,57 @@ func checkSwitch(rc *RC, ts *TypedSwitch) {
 
 func canonArm(c *ir.Canon, fd *ast.FuncDecl, body []ast.Stmt) string {
 	return ir.Render(c.Stmts(fd, body))
+}
+
+// boxedValueMismatch: an arm that returns a value boxed in an interface{} result must box a
+// value of the arm's own element type. The compiler accepts any type there (an untyped
+// constant takes its default type: complex(1e20, 0) is a complex128 in every arm), and the
+// consumer - binary.Write, a type assertion - then sees the wrong width.
+func boxedValueMismatch(rc *RC, ts *TypedSwitch, arm *Arm, label types.BasicKind) string {
+	info := ts.FI.Pkg.TypesInfo
+	sig, ok := ts.FI.Obj.Type().(*types.Signature)
+	if !ok || sig.Results().Len() == 0 {
+		return ""
+	}
+	bad := ""
+	for _, st := range arm.Clause.Body {
+		ast.Inspect(st, func(n ast.Node) bool {
+			if _, isLit := n.(*ast.FuncLit); isLit {
+				return false
+			}
+			ret, ok := n.(*ast.ReturnStmt)
+			if !ok || len(ret.Results) != sig.Results().Len() {
+				return true
+			}
+			for i, e := range ret.Results {
+				if _, isIface := sig.Results().At(i).Type().Underlying().(*types.Interface); !isIface {
+					continue
+				}
+				tv, ok := info.Types[e]
+				if !ok || tv.Type == nil {
+					continue
+				}
+				b, ok := tv.Type.Underlying().(*types.Basic)
+				if !ok || b.Kind() == types.UntypedNil || b.Info()&types.IsNumeric == 0 {
+					continue
+				}
+				k := b.Kind()
+				switch k { // default types of untyped constants
+				case types.UntypedInt:
+					k = types.Int
+				case types.UntypedFloat:
+					k = types.Float64
+				case types.UntypedComplex:
+					k = types.Complex128
+				case types.UntypedRune:
+					k = types.Int32
+				}
+				if k != label && bad == "" {
+					bad = fmt.Sprintf("arm labelled %s returns a %s boxed in interface{} at %s (an untyped constant takes its default type)", types.Typ[label].Name(), types.Typ[k].Name(), rc.P.Pos(e.Pos()))
+				}
+			}
+			return true
+		})
+	}
+	return bad
 }
